@@ -164,6 +164,51 @@ def run(ctx):
                     res.site(key, True)
                     res.find(key, g.loc(t["sp"]), "the type checker compares a name with the string constant %r: the verdict is not invariant under consistent renaming of memory regions" % consts[0][1], "renaming region `%s` consistently changes the verdict" % consts[0][1])
     res.site("K5|name-constant", True, {"string_constant_comparisons": nconst, "verdict": "ok" if not nconst else "VIOLATION"})
+    # R5 every declaration lookup reports an undeclared region: for each `memory_regions.get(..)` in the type checker the
+    #    None outcome leads to an UndefinedMemoryReference error (match/if-let on the result, or ok_or(..)? on it)
+    nlook = 0
+    for g in db.fns:
+        if not g.path.startswith(TC + "::"):
+            continue
+        gets = [(bb, t) for bb, t, c in g.calls() if c and c.get("name") == "get" and "IndexMap" in callee_path(c) and fn_expr_operand(g, t["args"][0])[0] in ("param", "field")]
+        if not gets:
+            continue
+        # error producers in g: calls to undefined_memory_reference and constructions of the variant
+        prods = [bb for bb, t, c in g.calls() if c and c.get("name") == "undefined_memory_reference"]
+        for b_ in range(len(g.blocks)):
+            for s_ in g.blocks[b_]["s"]:
+                if s_["k"] == "assign" and s_["rv"]["k"] == "agg" and s_["rv"]["a"].get("variant") == "UndefinedMemoryReference":
+                    prods.append(b_)
+        for bb, t in gets:
+            nlook += 1
+            key = "K7|undeclared-reported|%s|get@%s" % (g.path.replace(TC + "::", ""), len([x for x in gets if x[0] < bb]))
+            ok = False
+            # (a) a producer control dependent on the discriminant of this very lookup
+            for pb in prods:
+                for sb, tgt in g.control_deps(pb, transitive=False):
+                    tt = g.blocks[sb]["t"]
+                    if tt["k"] == "switch":
+                        e = fn_expr_operand(g, tt["d"])
+                        if e[0] == "discr" and e[1][0] == "call" and e[1][1].endswith("::get") and e[1][3] == bb:
+                            ok = True
+            # (b) ok_or / ok_or_else on the lookup whose error value is the variant
+            for b2, t2, c2 in g.calls():
+                if c2 and c2.get("name") in ("ok_or", "ok_or_else"):
+                    a = [fn_expr_operand(g, x) for x in t2["args"]]
+                    if a[0][0] == "call" and a[0][1].endswith("::get") and a[0][3] == bb:
+                        errv = a[1]
+                        names = []
+                        walk_expr(errv, lambda n: names.append(n[2]) if n[0] == "agg" else None)
+                        if "UndefinedMemoryReference" in names:
+                            ok = True
+                        if errv[0] == "closure":
+                            for h in db.by_path.get(errv[1], []):
+                                if any(s_["k"] == "assign" and s_["rv"]["k"] == "agg" and s_["rv"]["a"].get("variant") == "UndefinedMemoryReference" for b_ in h.blocks for s_ in b_["s"]):
+                                    ok = True
+            res.site(key, True, {"verdict": "ok" if ok else "VIOLATION"})
+            if not ok:
+                res.find(key, g.loc(t.get("sp")), "%s looks a memory region up in the declarations but does not report UndefinedMemoryReference when it is not declared" % g.path.replace(TC + "::", ""), "`GE flag n[0] limit` with `limit` undeclared type-checks, and declaring `limit REAL` then makes the same program fail")
+    res.count("declaration_lookups", nlook, floor=18)
     res.explanation = "Loop-carried-state and input-provenance analysis of type_check, type-directed coverage and verdict propagation in should_be_real, a type-computed list of (frame, expression) instruction kinds that must be checked for realness, and absence of name constants in the checker."
     res.assumptions = ["IndexMap::get by name is the only use of region names"]
     return res
